@@ -21,6 +21,10 @@ pub struct Report {
     pub functions: Vec<&'static str>,
 }
 
+fn trace_path() -> Option<&'static str> {
+    static P: std::sync::OnceLock<Option<String>> = std::sync::OnceLock::new();
+    P.get_or_init(|| std::env::var("VERIF_TRACE").ok()).as_deref()
+}
 impl Report {
     pub fn new(p: &str, bound: &str) -> Self {
         Report { property: p.into(), bound: bound.into(), cases: 0, distinct: 0, failures: vec![], samples: vec![], functions: vec![] }
@@ -28,6 +32,16 @@ impl Report {
     pub fn case(&mut self, sample: impl FnOnce() -> String) {
         self.cases += 1;
         self.distinct += 1;
+        // VERIF_TRACE=<file>: the description of the case about to run is written (and flushed) first, so that after a
+        // crash of the process (a signal raised inside the library's unsafe code) the driver can name the input
+        if let Some(path) = trace_path() {
+            let d = sample();
+            let _ = std::fs::write(path, format!("{} case #{}: {}", self.property, self.cases, d));
+            if self.samples.len() < 6 && (self.cases % 97 == 1) {
+                self.samples.push(d);
+            }
+            return;
+        }
         if self.samples.len() < 6 && (self.cases % 97 == 1) {
             self.samples.push(sample());
         }
@@ -314,6 +328,30 @@ fn c02_kmer<C: Oracle, const K: usize>(rep: &mut Report, rng: &mut Rng) {
         });
     }
 }
+fn c02_alias<C: Oracle>(rep: &mut Report, rng: &mut Rng) {
+    // both operands are windows of the SAME parent (same allocation, possibly the same storage word, possibly overlapping):
+    // equality and hashing still depend on content only
+    let n = 3 * (64 / C::BITS as usize) + 5;
+    let mut rows = rand_rows::<C>(rng, n);
+    // plant repeats so that equal windows exist at different positions
+    for i in 0..n / 2 { if i % 3 != 0 { rows[n / 2 + i] = rows[i]; } }
+    let parent = build::<C>(&rows);
+    for w in [0usize, 1, 2, 3, 5] {
+        for a in 0..n - w {
+            for b in [a, a + 1, a + 2, a + n / 2, a + 64 / C::BITS as usize, n - w] {
+                let b = b.min(n - w);
+                let (x, y) = (&parent[a..a + w], &parent[b..b + w]);
+                let same = rows[a..a + w] == rows[b..b + w];
+                rep.case(|| format!("{} windows [{}..{}] vs [{}..{}] of one parent", C::NAME, a, a + w, b, b + w));
+                let ok = (*x == *y) == same && (*y == *x) == same && (x == y) == same && (*x != *y) == !same && (x.to_owned() == *y) == same && (*x == y.to_owned()) == same
+                    && (rec(x) == rec(y)) == same || (!same && rec(x) == rec(y) && w == 0);
+                rep.expect(ok, "C02 two windows of the same parent compare equal exactly when their symbols are equal (and then hash alike)", || format!("{} {}[{}..{}]={} vs [{}..{}]={}", C::NAME, parent, a, a + w, x, b, b + w, y));
+            }
+        }
+    }
+    let whole = &parent[..];
+    rep.expect(*whole == *whole && parent == parent && *whole == parent && rec(whole) == rec(&parent), "C02 a sequence equals itself", || format!("{}", C::NAME));
+}
 fn c02_text<C: Oracle>(rep: &mut Report, rng: &mut Rng) {
     // SeqSlice == &str glue: lengths 0..5, prefixes/suffixes, invalid characters
     for n in 0..5usize {
@@ -405,6 +443,7 @@ fn c02(_tier: &str, seed: u64) -> Report {
     c02_kmer::<text::Dna, 1>(&mut rep, &mut rng);
     c02_kmer::<text::Dna, 8>(&mut rep, &mut rng);
     for_codecs!(c02_text, &mut rep, &mut rng);
+    for_codecs!(c02_alias, &mut rep, &mut rng);
     for_codecs!(c02_owned, &mut rep, &mut rng);
     rep
 }
@@ -633,8 +672,30 @@ fn c06_codec<C: Oracle>(rep: &mut Report, steps: usize, rng: &mut Rng) {
                 hist.push_str("push;");
             }
             1 => {
-                seq.extend(arg.iter().map(|&r| C::entry(r).sym));
-                model.extend(&arg);
+                // iterators of every size-hint shape: exact, upper bound larger than the yield (filter / take_while / skip_while),
+                // unknown upper bound (from_fn), chained
+                let drop = C::entry(rng.below(C::len())).sym;
+                let kept: Vec<usize> = arg.iter().copied().filter(|&r| C::entry(r).sym != drop).collect();
+                match step % 5 {
+                    0 => { seq.extend(arg.iter().map(|&r| C::entry(r).sym)); model.extend(&arg); }
+                    1 => { seq.extend(arg.iter().map(|&r| C::entry(r).sym).filter(|s| *s != drop)); model.extend(&kept); }
+                    2 => {
+                        let k = arg.iter().position(|&r| C::entry(r).sym == drop).unwrap_or(arg.len());
+                        seq.extend(arg.iter().map(|&r| C::entry(r).sym).take_while(|s| *s != drop));
+                        model.extend(&arg[..k]);
+                    }
+                    3 => {
+                        let mut it = arg.iter().map(|&r| C::entry(r).sym);
+                        seq.extend(std::iter::from_fn(move || it.next()));
+                        model.extend(&arg);
+                    }
+                    _ => {
+                        Extend::extend(&mut seq, arg.iter().map(|&r| C::entry(r).sym).chain(kept.iter().map(|&r| C::entry(r).sym)).skip_while(|s| *s == drop));
+                        let all: Vec<usize> = arg.iter().chain(kept.iter()).copied().collect();
+                        let k = all.iter().position(|&r| C::entry(r).sym != drop).unwrap_or(all.len());
+                        model.extend(&all[k..]);
+                    }
+                }
                 hist.push_str("extend;");
             }
             2 => {
@@ -728,6 +789,12 @@ fn c06_codec<C: Oracle>(rep: &mut Report, steps: usize, rng: &mut Rng) {
         let mut d: Seq<C> = Seq::default();
         Extend::extend(&mut d, syms.iter().copied());
         let e: Seq<C> = Seq::from_iter(syms.clone());
+        // collecting from an iterator whose size hint overestimates (filter_map) or is unknown
+        let marked: Vec<Option<C>> = syms.iter().flat_map(|s| [None, Some(*s), None]).collect();
+        let e2: Seq<C> = marked.iter().filter_map(|x| *x).collect();
+        let mut it2 = syms.iter().copied();
+        let e3: Seq<C> = std::iter::from_fn(move || it2.next()).collect();
+        rep.expect(e2 == e && e3 == e && e2.len() == n, "C06 every way to build an owned sequence from a list of symbols yields that list", || format!("{} collect from filter_map / from_fn n={} got {} / {}", C::NAME, n, e2, e3));
         let f: Seq<C> = build::<C>(&rows)[..].into();
         for (what, x) in [("collect", &a), ("From<&Vec<A>>", &b), ("with_capacity + extend", &c), ("default + Extend", &d), ("from_iter", &e), ("From<&SeqSlice>", &f)] {
             rep.expect(x.len() == n && rows_of::<C>(x) == rows && *x == a, "C06 every way to build an owned sequence from a list of symbols yields that list", || format!("{} {} n={} got {}", C::NAME, what, n, x));
